@@ -2,21 +2,22 @@
 """Assemble /verif/seeded/<id>/ from the sub-agents' output dirs, my confirmation runs and the check verdicts.
 usage: collect_seeded.py  (reads /tmp/wt/*.out/m*, /tmp/wt/confirm*.jsonl, /tmp/wt/eval*.jsonl)"""
 import json,glob,os,shutil,sys
+WT=os.environ.get('WT','/tmp/wt'); OFF=int(os.environ.get('OFFSET','0'))
 conf={}
-for f in sorted(glob.glob('/tmp/wt/confirm*.jsonl')):
+for f in sorted(glob.glob(WT+'/confirm*.jsonl')):
     for l in open(f):
         try: r=json.loads(l)
         except: continue
         conf[r['dir']]=r
 ev={}
-for f in sorted(glob.glob('/tmp/wt/eval*.jsonl')):
+for f in sorted(glob.glob(WT+'/eval*.jsonl')):
     for l in open(f):
         try: r=json.loads(l)
         except: continue
         ev.setdefault(r['dir'],[]).append(r)
-for d in sorted(glob.glob('/tmp/wt/C*.out/m*')):
+for d in sorted(glob.glob(WT+'/C*.out/m*')):
     prop=os.path.basename(os.path.dirname(d))[:3]; k=os.path.basename(d)
-    sid=f'{prop}-{k}'
+    sid=f'{prop}-m{int(k[1:])+OFF}'
     c=conf.get(d)
     if not c or not (c.get('applies') and c.get('builds') and c.get('demo_fails_with') and c.get('demo_passes_without') and c.get('suite_ok')):
         print('skip (not confirmed):',sid,c); continue
